@@ -9,6 +9,8 @@
                         (color.py:470-520) and Palette.match (palette.py:44-71) in exact integer
                         arithmetic.  MC_Color shows it satisfies the property part; Trace_Color
                         reports a disagreement of the real code with it as DRIFT only.
+                        RefSystem / RefIsDefault / RefIsSystemDefined / RefTruecolor - the read-only
+                        accessors (the statement is silent about them: DRIFT only).
 
    Palettes are DATA of the tree under test (rich/_palettes.py), never written in a spec: the
    three CONSTANTS are bound in the .cfg files to values read from the JSON batch
@@ -87,8 +89,9 @@ SourceRGB(c) == IF c.kind = "rgb" THEN [r |-> c.r, g |-> c.g, b |-> c.b] ELSE Pa
 
 (* "already representable" per (source kind, target system).  The 16 system colours are
    representable everywhere; a standard index n is the same index n of the legacy Windows
-   console.  Colour numbers < 16 built by the public constructors (Color.parse / from_ansi) are of
-   kind "standard", never "eight".                                                              *)
+   console.  Colour numbers < 16 built by Color.parse / from_ansi are of kind "standard"; a colour of
+   kind "eight" with a number < 16 exists only when the Color tuple is built directly (the driver does
+   that too): it is representable in the 256-colour system and everywhere above it.             *)
 Representable(c, sys) ==
     \/ c.kind = "default"
     \/ sys = "truecolor"
@@ -96,9 +99,11 @@ Representable(c, sys) ==
     \/ sys = "standard" /\ c.kind = "standard"
     \/ sys = "windows"  /\ c.kind \in {"standard", "windows"}
 
-(* Pairs the statement does not quantify over (its inputs are RGB, the 256 indexed colours as the
-   constructors build them, and default; "windows" colours occur only as results and are then
-   re-converted to "windows").  Only the gamut is required for them.                            *)
+(* Pairs on which the statement says nothing beyond the gamut (its inputs are RGB, the 256 indexed
+   colours as the constructors build them, and default): a legacy-Windows colour (the result of an
+   earlier conversion, or a Color tuple built directly) converted to standard / 256, and an 8-bit
+   typed colour with a number < 16 converted to a 16-colour system.  The gamut, idempotence and the
+   SGR parameters are still required for them; which of the 16 indices comes back is left open.  *)
 Silent(c, sys) ==
     \/ c.kind = "windows" /\ sys \in {"standard", "eight"}
     \/ c.kind = "eight" /\ c.n < 16 /\ sys \in {"standard", "windows"}
@@ -149,6 +154,22 @@ SgrCodes(c, foreground) ==
 \* p-th parameter, Absent beyond the end (column form used by the slice judge)
 SgrCodeAt(c, foreground, p) ==
     LET s == SgrCodes(c, foreground) IN IF p <= Len(s) THEN s[p] ELSE Absent
+
+\* ---- implementation-shaped part: the read-only accessors (color.py:283-332) ------------------
+(* Color.system / is_default / is_system_defined / get_truecolor(theme, foreground).  The statement
+   says nothing about them; Trace_Color compares what the real code returned with these
+   transcriptions and reports a difference as DRIFT only.  A theme is a record
+   [fg, bg : <<r,g,b>>, ansi : sequence of 16 <<r,g,b>>] (TerminalTheme(background, foreground,
+   normal, bright): ansi = normal \o (bright or normal)).                                         *)
+RefSystem(c) == IF c.kind = "default" THEN "standard" ELSE IF c.kind = "rgb" THEN "truecolor" ELSE c.kind
+RefIsDefault(c) == c.kind = "default"
+RefIsSystemDefined(c) == RefSystem(c) \notin {"eight", "truecolor"}
+RefTruecolor(c, theme, foreground) ==
+    IF c.kind = "rgb" THEN <<c.r, c.g, c.b>>
+    ELSE IF c.kind = "eight" THEN EightPalette[c.n + 1]
+    ELSE IF c.kind = "standard" THEN theme.ansi[c.n + 1]
+    ELSE IF c.kind = "windows" THEN WinPalette[c.n + 1]
+    ELSE IF foreground THEN theme.fg ELSE theme.bg
 
 \* ---- implementation-shaped part: transcription of Color.downgrade -------------------------
 (* Palette.match: min(range(len), key=distance) - a left-to-right scan keeping the first minimum. *)
